@@ -314,11 +314,16 @@ def run_cases(binary, test, cases, tag, shards=None, timeout=1500, env=None, ser
     def work(arg):
         idx, part = arg
         po = os.path.join(outdir, "obs.%d.ndjson" % idx)
-        rc, out = run(part, os.path.join(outdir, "in.%d.ndjson" % idx), po, 1 if serial else None)
-        if rc == 0:
-            return
-        done = set(o["name"] for o in read_ndjson(po)) if os.path.exists(po) else set()
-        rest = [c for c in part if c["name"] not in done]
+        rest = list(part)
+        rc, out = 0, ""
+        for attempt in range(40):
+            rc, out = run(rest, os.path.join(outdir, "in.%d.a%d.ndjson" % (idx, attempt)), po, 1 if serial else None)
+            done = set(o["name"] for o in read_ndjson(po)) if os.path.exists(po) else set()
+            rest = [c for c in rest if c["name"] not in done]
+            if rc == 0 or not rest:
+                return
+            if rc != 3:      # 3 = the per-case watchdog reported a hung case and stopped the process
+                break
         if not rest:
             return
         if not ("panic:" in out or "fatal error:" in out or rc in (-9,)):
@@ -333,7 +338,7 @@ def run_cases(binary, test, cases, tag, shards=None, timeout=1500, env=None, ser
                 break
             started = re.findall(r"^SCENARIO (\S+)$", out, re.M)
             cur = started[-1] if started else None
-            if cur and cur not in done:
+            if cur and cur not in done and rc != 3:
                 crashes[cur] = out[-4000:]
                 done.add(cur)
             n = len(rest)
@@ -349,6 +354,11 @@ def run_cases(binary, test, cases, tag, shards=None, timeout=1500, env=None, ser
             for o in read_ndjson(po):
                 obs[o["name"]] = o
     return obs, crashes
+
+
+def hung_cases(obs):
+    """Names of cases the driver's watchdog reported as hung."""
+    return [n for n, o in obs.items() if o.get("hang")]
 
 
 def judge_observations(module, cfg, obs_list, tag, timeout=1800):
@@ -367,3 +377,94 @@ def judge_observations(module, cfg, obs_list, tag, timeout=1800):
         raise Inconclusive("TLC judged %d of %d lines, bad=%d, deviations listed=%d" % (judged, len(obs_list), bad, len(names)))
     r["judged"] = judged
     return r, names
+
+
+# ----------------------------------------------------------------------------- TLC graph -> call words
+
+def tlc_graph(module, cfg, timeout=600):
+    """Dumps the reachable state graph with action labels. Returns (init node, {node: [(label, next)]})."""
+    dot = os.path.join(scratch(), "graph.%s.%s.dot" % (module, cfg.replace(".cfg", "")))
+    r = tlc(module, cfg, extra=["-dump", "dot,actionlabels", dot], timeout=timeout)
+    if not r["completed"] or not os.path.exists(dot):
+        raise Inconclusive("graph dump failed for %s/%s:\n%s" % (module, cfg, r["out"][-2000:]))
+    node_re = re.compile(r'^(-?\d+) \[label="((?:[^"\\]|\\.)*)"(,style = filled)?\]')
+    edge_re = re.compile(r'^(-?\d+) -> (-?\d+) \[label="((?:[^"\\]|\\.)*)"')
+    edges, init = {}, None
+    for line in open(dot):
+        m = edge_re.match(line)
+        if m:
+            edges.setdefault(m.group(1), []).append((m.group(3).replace('\\"', '"'), m.group(2)))
+            continue
+        m = node_re.match(line)
+        if m and m.group(3):
+            init = m.group(1)
+    if init is None:
+        raise Inconclusive("no initial node in graph dump of %s/%s" % (module, cfg))
+    return init, edges, r
+
+
+def graph_words(init, edges, silent, maxlen):
+    """All distinct words of visible labels (length <= maxlen) along paths from init; labels in
+    `silent` are epsilon moves."""
+    def closure(nodes):
+        out, stack = set(nodes), list(nodes)
+        while stack:
+            n = stack.pop()
+            for lab, nx in edges.get(n, []):
+                if lab.split("(")[0] in silent and nx not in out:
+                    out.add(nx)
+                    stack.append(nx)
+        return frozenset(out)
+    words = set()
+    frontier = {(): closure([init])}
+    for _ in range(maxlen):
+        nxt = {}
+        for w, nodes in frontier.items():
+            by = {}
+            for n in nodes:
+                for lab, nx in edges.get(n, []):
+                    if lab.split("(")[0] in silent:
+                        continue
+                    by.setdefault(lab, set()).add(nx)
+            for lab, tgt in by.items():
+                w2 = w + (lab,)
+                words.add(w2)
+                nxt[w2] = closure(tgt)
+        frontier = nxt
+    return sorted(words)
+
+
+def validate_packed(module, cfg, cases_events, tag, max_rounds=12, timeout=900):
+    """cases_events: list of (name, [event dicts]) where the first event is the reset line. Packs
+    them into one log, validates; on rejection attributes the failure to the case containing the
+    high-water line, drops it and repeats. Returns (accepted case count, [(name, rejected event, detail)])."""
+    rejected = []
+    remaining = list(cases_events)
+    rounds = 0
+    total_states = 0
+    while remaining and rounds < max_rounds:
+        rounds += 1
+        rows, owner = [], []
+        for name, evs in remaining:
+            for e in evs:
+                rows.append(e)
+                owner.append(name)
+        path = os.path.join(sub(tag + ".packed"), "trace.%d.ndjson" % rounds)
+        write_ndjson(path, rows)
+        r = validate_trace(module, cfg, path, timeout=timeout)
+        total_states += r.get("distinct", 0) or 0
+        if r["accepted"]:
+            return len(remaining), rejected, total_states
+        if r.get("highwater") is None and not r.get("violated"):
+            raise Inconclusive("trace validation did not finish (%s/%s):\n%s" % (module, cfg, r["out"][-2000:]))
+        if r.get("violated") and r.get("highwater"):
+            idx = min(r["highwater"], len(rows)) - 1
+            detail = "invariant %s violated" % r["violated"]
+        else:
+            idx = r["highwater"] - 1
+            detail = "event not allowed by the specification"
+        idx = max(0, min(idx, len(rows) - 1))
+        bad = owner[idx]
+        rejected.append((bad, rows[idx], detail))
+        remaining = [(n, e) for n, e in remaining if n != bad]
+    return len(remaining), rejected, total_states
